@@ -810,7 +810,8 @@ class GroupBy:
         if mask.start is None:
             start = 0
         elif mask.start < 0:
-            start = len(self) + mask.start
+            # a start before the first row selects from row 0 (slice semantics)
+            start = max(len(self) + mask.start, 0)
         else:
             start = mask.start
 
